@@ -122,6 +122,15 @@ type walker struct {
 	held      []string // mutexes held at this point of the walk (a deferred unlock holds to the end of the body)
 	blocking  []string // operations that can block indefinitely, met while a mutex is held
 	nonBlock  int      // > 0 inside the comm clauses of a select that has a default branch
+	aliases   map[string]string // local variable -> guarded location whose element (an inner map / slice) it refers to
+}
+
+func (w *walker) aliasOf(e ast.Expr) (string, bool) {
+	if id, ok := e.(*ast.Ident); ok && w.aliases != nil {
+		loc, ok := w.aliases[id.Name]
+		return loc, ok
+	}
+	return "", false
 }
 
 func (w *walker) emit(k, a string) {
@@ -199,6 +208,13 @@ func (w *walker) reads(e ast.Node) {
 				return false
 			}
 			if id, ok := x.Fun.(*ast.Ident); ok && id.Name == "delete" && len(x.Args) >= 1 {
+				if loc, ok := w.aliasOf(x.Args[0]); ok {
+					for _, a := range x.Args[1:] {
+						w.reads(a)
+					}
+					w.emit("wr", loc)
+					return false
+				}
 				if loc, ok := w.locOf(strings.TrimSuffix(exprString(x.Args[0]), "[]")); ok {
 					for _, a := range x.Args[1:] {
 						w.reads(a)
@@ -232,6 +248,12 @@ func (w *walker) reads(e ast.Node) {
 				w.emit("rd", loc)
 				return false
 			}
+		case *ast.IndexExpr:
+			if loc, ok := w.aliasOf(x.X); ok {
+				w.reads(x.Index)
+				w.emit("rd", loc)
+				return false
+			}
 		}
 		return true
 	})
@@ -256,6 +278,12 @@ func (w *walker) writeTarget(e ast.Expr) bool {
 		w.emit("wr", loc)
 		return true
 	}
+	if _, indexed := e.(*ast.IndexExpr); indexed {
+		if loc, ok := w.aliasOf(t); ok { // x := s.m[k]; x[c] = v  — a write to the guarded structure through the alias
+			w.emit("wr", loc)
+			return true
+		}
+	}
 	return false
 }
 
@@ -277,6 +305,20 @@ func (w *walker) stmt(s ast.Stmt) {
 	case *ast.AssignStmt:
 		for _, r := range x.Rhs {
 			w.reads(r)
+		}
+		if len(x.Rhs) == 1 && len(x.Lhs) >= 1 {
+			if id, ok := x.Lhs[0].(*ast.Ident); ok && id.Name != "_" {
+				if ix, ok := x.Rhs[0].(*ast.IndexExpr); ok {
+					if loc, ok := w.locOf(exprString(ix.X)); ok {
+						if w.aliases == nil {
+							w.aliases = map[string]string{}
+						}
+						w.aliases[id.Name] = loc
+					}
+				} else if w.aliases != nil {
+					delete(w.aliases, id.Name)
+				}
+			}
 		}
 		for _, l := range x.Lhs {
 			if !w.writeTarget(l) {
@@ -300,6 +342,9 @@ func (w *walker) stmt(s ast.Stmt) {
 		w.stmt(x.Post)
 	case *ast.RangeStmt:
 		w.reads(x.X)
+		if loc, ok := w.aliasOf(x.X); ok {
+			w.emit("rd", loc)
+		}
 		w.block(x.Body)
 	case *ast.SwitchStmt:
 		w.stmt(x.Init)
